@@ -160,6 +160,68 @@ class Gen:
             self.emit(f"name {n} n_{n}")
         return n
 
+    def t_rewire(self):
+        """chains of slices / extensions / concatenations / bit picks (mergeRewires, Node_Rewire::optimize):
+        a rewire fed by rewires, constants in the middle, a slice of a concatenation crossing the seam"""
+        w = self.r.choice([2, 3, 3, 4])
+        cur = self.get_u(w)
+        for _ in range(self.r.choice([2, 3, 3, 4])):
+            w = self.vars[cur][1]
+            n = self.fresh("q")
+            k = self.r.random()
+            if k < 0.3 and w >= 2:
+                sw = self.r.randrange(1, w); off = self.r.randrange(0, w - sw + 1)
+                self.emit(f"slice {n} {cur} {off} {sw}"); nw = sw
+            elif k < 0.55 and w <= 3:
+                ow = self.r.choice([1, 2])
+                other = self.lit_u(ow, xprob=0.2) if self.r.random() < 0.5 else self.get_u(ow)
+                a, b = (cur, other) if self.r.random() < 0.5 else (other, cur)
+                self.emit(f"bin {n} cat {a} {b}"); nw = w + ow
+            elif k < 0.75 and w <= 3:
+                nw = w + self.r.choice([1, 2])
+                self.emit(f"{self.r.choice(['zext', 'oext', 'sext'])} {n} {cur} {nw}")
+            elif k < 0.9 and w >= 2:
+                # reassemble from single bits in a permuted order
+                idx = list(range(w)); self.r.shuffle(idx)
+                parts = []
+                for i in idx[:self.r.choice([2, w])]:
+                    b = self.fresh("b"); self.emit(f"bit {b} {cur} {i}"); self.vars[b] = ('b', 1)
+                    parts.append(b)
+                v = self.fresh("y"); self.emit(f"var {v} {self.lit_u(len(parts), xprob=0.0)}"); self.vars[v] = ('u', len(parts))
+                for j, b in enumerate(parts):
+                    self.emit(f"setbit {v} {j} {b}")
+                self.emit(f"slice {n} {v} 0 {len(parts)}"); nw = len(parts)
+            else:
+                self.emit(f"not {n} {cur}"); nw = w
+            self.vars[n] = ('u', nw)
+            if self.r.random() < 0.25:
+                self.emit(f"name {n} n_{n}")
+            cur = n
+        return cur
+
+    def t_cmpconst(self):
+        """comparisons against constants (removeIrrelevantComparisons, ensureNoLiteralComparison): 1-bit
+        operands compared with '0' / '1' / X, both operand orders, == and !=, used as condition and as data"""
+        a = self.get_b() if self.r.random() < 0.7 else None
+        n = self.fresh("b")
+        if a is not None:
+            k = self.lit_b(xprob=0.12)                 # BOOL == BOOL constant: identity / inverter / undefined
+            x, y = (a, k) if self.r.random() < 0.5 else (k, a)
+            self.emit(f"bin {n} {self.r.choice(['eq', 'ne'])} {x} {y}")
+        else:
+            w = self.r.choice([1, 2])
+            ua, k = self.get_u(w), self.lit_u(w, xprob=0.1)
+            x, y = (ua, k) if self.r.random() < 0.5 else (k, ua)
+            self.emit(f"bin {n} {self.r.choice(['eq', 'ne', 'lt', 'gt', 'le', 'ge'])} {x} {y}")
+        self.vars[n] = ('b', 1)
+        if self.r.random() < 0.3:
+            self.emit(f"name {n} n_{n}")
+        w = self.r.choice([1, 2])
+        o = self.fresh("t")
+        self.emit(f"mux {o} {n} {self.get_u(w)} {self.get_u(w)}")
+        self.vars[o] = ('u', w)
+        return o
+
     # ---- templates -----------------------------------------------------
     def t_ifchain(self, depth=0):
         w = self.r.choice([1, 2, 2, 3])
@@ -399,7 +461,7 @@ class Gen:
         return q
 
 
-TEMPLATES = ["t_ifchain", "t_muxchain", "t_muxmerge", "t_noop", "t_reg", "t_holdloop", "t_constfold", "t_regconst", "expr", "expr"]
+TEMPLATES = ["t_ifchain", "t_muxchain", "t_muxmerge", "t_noop", "t_reg", "t_holdloop", "t_constfold", "t_regconst", "t_rewire", "t_cmpconst", "expr", "expr"]
 
 
 def gen_design(seed, did, decorate=None):
